@@ -78,7 +78,7 @@ class Spheres(Scatterers):
             for j in range(i+1, len(self.scatterers)):
                 s2= self.scatterers[j]
                 try:
-                    if cartesian_distance(s1.center, s2.center) < (np.max(s1.r) + np.max(s2.r)):
+                    if cartesian_distance(s1.center, s2.center) < (float(np.max(s1.r)) + float(np.max(s2.r))):
                         overlaps.append((i, j))
                 except:
                     # if the coordinates are not something that we can do
@@ -92,7 +92,7 @@ class Spheres(Scatterers):
         for i, s1 in enumerate(self.scatterers):
             for j in range(i+1, len(self.scatterers)):
                 s2= self.scatterers[j]
-                largest = max(largest, (np.max(s1.r) + np.max(s2.r)) -
+                largest = max(largest, (float(np.max(s1.r)) + float(np.max(s2.r))) -
                                        cartesian_distance(s1.center, s2.center))
 
         return largest
